@@ -89,28 +89,47 @@ func (pass *FlattenDisjunctions) flattenDisjunction(schemas ast.Schemas, disjunc
 		newDisjunction.Branches = append(newDisjunction.Branches, typeDef)
 	}
 
-	for i, branch := range disjunction.Branches {
-		typeName := pass.branchIdentity("", i, branch)
+	// references being unfolded: a disjunction can refer to itself (`D: "a" | D`)
+	unfolding := make(map[string]struct{})
 
-		if !branch.IsRef() {
-			addBranch(typeName, branch)
-			continue
-		}
+	var flatten func(prefix string, branches []ast.Type)
+	flatten = func(prefix string, branches []ast.Type) {
+		for i, branch := range branches {
+			typeName := pass.branchIdentity(prefix, i, branch)
 
-		// a reference that does not resolve to a disjunction (or does not
-		// resolve at all) is a branch of its own
-		resolved := schemas.ResolveToType(branch)
-		if !resolved.IsDisjunction() {
-			addBranch(typeName, branch)
-			continue
-		}
+			if !branch.IsRef() {
+				addBranch(typeName, branch)
+				continue
+			}
 
-		for innerI, resolvedBranch := range resolved.AsDisjunction().Branches {
-			innerTypeName := pass.branchIdentity("inner_", innerI, resolvedBranch)
+			// a reference that does not resolve to a disjunction (or does not
+			// resolve at all) is a branch of its own
+			resolved := schemas.ResolveToType(branch)
+			if !resolved.IsDisjunction() {
+				addBranch(typeName, branch)
+				continue
+			}
+
+			if _, found := unfolding[branch.Ref.String()]; found {
+				addBranch(typeName, branch)
+				continue
+			}
+
+			// the referred disjunction is flattened as well, whether or not the
+			// pass already went through the object it belongs to
 			// branches of another object: copy them, later passes rewrite types in place
-			addBranch(innerTypeName, resolvedBranch.DeepCopy())
+			innerBranches := make([]ast.Type, 0, len(resolved.AsDisjunction().Branches))
+			for _, innerBranch := range resolved.AsDisjunction().Branches {
+				innerBranches = append(innerBranches, innerBranch.DeepCopy())
+			}
+
+			unfolding[branch.Ref.String()] = struct{}{}
+			flatten(fmt.Sprintf("%sinner_%d_", prefix, i), innerBranches)
+			delete(unfolding, branch.Ref.String())
 		}
 	}
+
+	flatten("", disjunction.Branches)
 
 	return &newDisjunction
 }
